@@ -76,6 +76,11 @@ pub trait Check: Sync + Send {
             serde_json::to_string(case).unwrap_or_default()
         )
     }
+    /// Canonical failing inputs of the findings listed as open in KNOWN_FINDINGS.txt, executed at
+    /// the start of every batch so that each listed finding is reported on every run.
+    fn probe_cases(&self) -> Vec<Self::Case> {
+        vec![]
+    }
     fn rule(&self) -> String;
     fn assumptions(&self) -> Vec<String>;
     fn real_components(&self) -> Vec<&'static str>;
@@ -487,6 +492,23 @@ pub fn run_batch<C: Check>(check: &C, cfg: &BatchCfg) -> BatchOutcome {
     // Triage violations in index order.
     sh.violating.sort();
     let mut known_lines = vec![];
+    for pc in check.probe_cases() {
+        let mut st = Stats::default();
+        match execute_guarded(check, &pc, &mut st).violation {
+            Some(v) => {
+                let key = check.finding_key(&pc, &v);
+                if known.matches(check.id(), &key) {
+                    known_lines.push(format!("KNOWN-FINDING: property={} {}", check.id(), key));
+                } else {
+                    out_lines.push(format!("note: probe case fails with an unlisted key: {key}"));
+                }
+            }
+            None => out_lines.push(format!(
+                "note: a finding listed as open no longer reproduces on its canonical input {}",
+                serde_json::to_string(&pc).unwrap_or_default()
+            )),
+        }
+    }
     let mut violations = 0u64;
     let mut known_runs = 0u64;
     let triage_cap = 5000;
